@@ -4,7 +4,9 @@
    prefixes that avoid reserved prefixes, definitions hidden by a nested one not reused. A value is a list of pieces:
    literal bytes or a reference to a module, printed with the module's OWN prefix (lyplg_type_print with LY_VALUE_XML).
    The element tree, character data and the byte level are those of XmlDoc.v; this file adds what XmlDoc.v's canonical
-   string values do not have. Tie to the code: the oracle comps_doc.QNamesX (no extracted run of this file). *)
+   string values do not have. Tie to the code: open_tag is extracted (Extract_xmlqn.v) and compared byte for byte with the
+   start tags libyang prints (T2 component comps_doc.QnTagModel); the meaning of the printed values is checked by the oracle
+   comps_doc.QNamesX. *)
 From LY Require Import Base XmlDoc XmlDocP.
 Local Open Scope N_scope.
 
